@@ -156,8 +156,9 @@ class DDEHistory:
                     f"DDEHistory: exceeded max_steps={len(self._y)}; "
                     "increase the bound or omit max_steps to allow growth."
                 )
-        self._t.append(float(t))
+        # (the row first: if `y` cannot be stored - wrong shape - the history stays as it was)
         self._y[self._n] = y       # row assignment copies y into the buffer
+        self._t.append(float(t))
         self._n += 1
 
     def _grow(self) -> None:
